@@ -146,6 +146,7 @@ func (wc WC) Format(str string) (string, int) {
 	}
 	if (wc.C & DSyncWidth) != 0 {
 		wc.wsync <- width
+		verifPoint("wc.sent", width)
 		width = <-wc.wsync
 	}
 	return wc.fill(str, width), width
